@@ -132,6 +132,11 @@ def rhs(items):
                 common = [t for t in common if t != ()]
             else:
                 raise ValueError("undocumented literal position")
+        elif it[0] == "par0":
+            # `(0 + e)` added to a formula: the library may refuse it (it does today); if it is accepted, the 0 removes the intercept
+            if sign != "+":
+                raise ValueError("undocumented literal position")
+            common = uniq_terms([t for t in common if t != ()] + ev(it[1]))
         elif it[0] == "par1":
             # `(1 + e)`: a parenthesised sum that carries an explicit intercept (documented for `1 + (x + y)` and kin)
             terms = ev(it[1])
@@ -212,6 +217,8 @@ def rhs_ordered(items):
                     common.append(())
             else:
                 common = [t for t in common if t != ()]
+        elif it[0] == "par0":
+            common = uniq([t for t in common if t != ()] + ev_ordered(it[1]))
         elif it[0] == "par1":
             terms = ev_ordered(it[1])
             if sign == "+":
@@ -280,6 +287,8 @@ def _r(renderer, t, right):
 def render_item(it, renderer=render_full, right=False):
     if it[0] == "lit":
         return it[1]
+    if it[0] == "par0":
+        return "(0 + " + _r(renderer, it[1], True) + ")"
     if it[0] == "par1":
         return "(1 + " + _r(renderer, it[1], True) + ")"
     if it[0] == "grp":
